@@ -228,6 +228,10 @@ theorem mutated_complete [DecidableEq β] (nil : β) (H2 : β → β → β) (xs
     (hlen : xs.length < 2 ^ 32) (hdup : SibDup nil H2 xs) : Flagged nil H2 xs :=
   mutated_complete' nil H2 xs 1 0 hlen (by omega) hdup
 
+/-- non-vacuity of `SibDup`: in [5,6,7,7] the blocks [7] and [7] at offset 2 are such a pair. -/
+example : SibDup (0 : Nat) (fun a b => 2 * a + 3 * b + 1) [5, 6, 7, 7] :=
+  ⟨0, [5, 6], [7], [7], [], by decide, by decide, by decide, by decide, by decide⟩
+
 /-- Binding, structural form: two non-empty lists with the same root are identical, or one of
 them contains a duplicated sibling pair (the duplicated-tail pattern), or `H2` has an explicit
 collision, or a leaf equals an inner node value (leaves and inner nodes are not domain-separated
